@@ -723,42 +723,47 @@ class Ctx(_Base):
         self._sharding()
         return k
 
-    def choose(self, conds):
+    def choose(self, conds, simplified=False, pick=None):
         """Multi-way fork over mutually exclusive, exhaustive conditions.
 
         Every call whose conditions are not syntactically decided appends
         exactly one trace entry (also when only one alternative is
-        feasible), so that re-execution under a prefix stays aligned."""
-        conds = [z3.simplify(c) for c in conds]
-        for i, c in enumerate(conds):
-            if z3.is_true(c):
-                return i
-        live = [i for i, c in enumerate(conds) if not z3.is_false(c)]
-        if not live:
-            self.aborted = "infeasible"
-            raise PathEnd("infeasible")
+        feasible), so that re-execution under a prefix stays aligned.
+        `pick(model)` may return the index of the alternative a model
+        satisfies (else the alternatives are scanned)."""
+        if not simplified:
+            conds = [z3.simplify(c) for c in conds]
+            for i, c in enumerate(conds):
+                if z3.is_true(c):
+                    return i
+            if all(z3.is_false(c) for c in conds):
+                self.aborted = "infeasible"
+                raise PathEnd("infeasible")
         k = self._forced(lambda k: conds[k])
         if k is not None:
             return k
-        self.get_model()
-        cur = None
-        for i in live:
-            if self._holds_in_model(conds[i]) is True:
-                cur = i
-                break
+
+        def which(m):
+            if pick is not None:
+                i = pick(m)
+                if i is not None:
+                    return i
+            for i, c in enumerate(conds):
+                if z3.is_true(m.eval(c, model_completion=True)):
+                    return i
+            raise EngineUnsupported("choose: alternatives are not exhaustive")
+        cur = which(self.get_model())
+        # enumerate the other feasible alternatives: one query each (+1)
         alts = []
-        for i in live:
-            if i == cur:
-                continue
-            if self._check(conds[i]) == z3.sat:
-                if cur is None:
-                    cur = i
-                    self.model = None
-                else:
-                    alts.append(i)
-        if cur is None:
-            self.aborted = "infeasible"
-            raise PathEnd("infeasible")
+        excl = [z3.Not(conds[cur])]
+        while len(alts) + 1 < len(conds):
+            if self._check(*excl) != z3.sat:
+                break
+            found = which(self.solver.model())
+            if found == cur or found in alts:
+                raise EngineUnsupported("choose: alternatives are not exclusive")
+            alts.append(found)
+            excl.append(z3.Not(conds[found]))
         self.trace.append((cur, tuple(alts)))
         self.solver.add(conds[cur])
         self._sharding()
@@ -1043,17 +1048,20 @@ class PathResult:
 
 
 def explore(fn, shard=None, max_paths=None, deadline=None, on_path=None,
-            timeout_ms=60000, smt_dump=None):
-    """Exhaustively explore harness ``fn``.  Returns (ctx, status).
+            timeout_ms=60000, smt_dump=None, root=None, donate=None):
+    """Exhaustively explore harness ``fn`` below the decision prefix ``root``.
+    Returns (ctx, status).
 
     status is "exhausted" or an inconclusive reason string.  ``on_path`` is
-    called with a PathResult for every completed feasible path.
+    called with a PathResult for every completed feasible path.  ``donate``
+    (optional) is called with the pending stack after every path and may
+    remove prefixes from it (to hand them to another worker).
     """
     ctx = Ctx(timeout_ms=timeout_ms)
     ctx.shard = shard
     ctx.smt_dump = smt_dump
     Ctx.cur = ctx
-    stack = [[]]
+    stack = [list(root or [])]
     status = "exhausted"
     try:
         while stack:
@@ -1103,9 +1111,14 @@ def explore(fn, shard=None, max_paths=None, deadline=None, on_path=None,
             finally:
                 trace = ctx.trace
                 ctx.end_path()
+            if len(trace) < len(prefix):
+                raise EngineUnsupported(
+                    "re-execution diverged from its decision prefix (non-deterministic harness?)")
             for i in range(len(prefix), len(trace)):
                 for a in trace[i][1]:
                     stack.append([t[0] for t in trace[:i]] + [a])
+            if donate is not None and len(stack) > 1:
+                donate(stack)
     except EngineUnsupported as e:
         status = "unsupported: %s" % (e,)
     finally:
